@@ -25,6 +25,17 @@ func staticCallee(c ssa.CallInstruction) *ssa.Function {
 		}
 		return f
 	}
+	// a call through a function-valued parameter of a helper that is examined on behalf of a call which passes a
+	// named function: that function
+	if p, ok := cc.Value.(*ssa.Parameter); ok && !cc.IsInvoke() {
+		switch b := paramBindV[p].(type) {
+		case *ssa.Function:
+			return b
+		case *ssa.MakeClosure:
+			f, _ := b.Fn.(*ssa.Function)
+			return f
+		}
+	}
 	return nil
 }
 
